@@ -17,9 +17,9 @@ use verif_harness::*;
 type Map = BTreeMap<Vec<u8>, Vec<u8>>;
 struct Failure { kind: &'static str, detail: String }
 
-struct ChildRun { ids: Vec<u64>, results: Vec<(String, u64)>, dropped: bool, log: Vec<(String, u64, i64)>, status: Option<i32> }
+struct ChildRun { ids: Vec<u64>, results: Vec<(String, u64)>, dropped: bool, log: Vec<(String, u64, i64)>, files: Vec<String>, status: Option<i32> }
 
-fn run_child(dir: &Path, seed: u64, env: &[(&str, String)]) -> ChildRun {
+fn run_child(dir: &Path, seed: u64, rot: bool, env: &[(&str, String)]) -> ChildRun {
     let _ = std::fs::remove_dir_all(dir);
     let arm = dir.with_extension("arm");
     let log = dir.with_extension("log");
@@ -27,7 +27,7 @@ fn run_child(dir: &Path, seed: u64, env: &[(&str, String)]) -> ChildRun {
     let _ = std::fs::remove_file(&log);
     let exe = std::env::current_exe().unwrap().parent().unwrap().join("crash_child");
     let mut c = Command::new(exe);
-    c.arg(dir).arg(seed.to_string())
+    c.arg(dir).arg(seed.to_string()).arg(if rot { "rot" } else { "norot" })
         .env("LD_PRELOAD", "/verif/shim/crashshim.so")
         .env("VERIF_SHIM_LOG", &log)
         .env("VERIF_SHIM_ARM_FILE", &arm);
@@ -47,15 +47,22 @@ fn run_child(dir: &Path, seed: u64, env: &[(&str, String)]) -> ChildRun {
         }
     }
     let mut lg = vec![];
+    let mut files: Vec<String> = vec![];
+    let mut fdname: BTreeMap<i64, String> = BTreeMap::new();
     if let Ok(t) = std::fs::read_to_string(&log) {
         for l in t.lines() {
             let p: Vec<&str> = l.split(' ').collect();
-            if p.len() == 4 { lg.push((p[1].to_string(), p[2].parse().unwrap_or(0), p[3].parse().unwrap_or(0))); }
+            if p.len() >= 4 {
+                let fd: i64 = p.get(4).and_then(|x| x.parse().ok()).unwrap_or(-1);
+                if let Some(name) = p[1].strip_prefix("open:") { fdname.insert(fd, name.to_string()); continue; }
+                lg.push((p[1].to_string(), p[2].parse().unwrap_or(0), p[3].parse().unwrap_or(0)));
+                files.push(fdname.get(&fd).cloned().unwrap_or_default());
+            }
         }
     }
     let _ = std::fs::remove_file(&arm);
     let _ = std::fs::remove_file(&log);
-    ChildRun { ids, results, dropped, log: lg, status: out.status.code() }
+    ChildRun { ids, results, dropped, log: lg, files, status: out.status.code() }
 }
 
 fn dump(dir: &Path, nks: usize) -> Result<Vec<Map>, String> {
@@ -79,7 +86,7 @@ fn apply(state: &mut Vec<Map>, op: &WOp) {
         WOp::Remove(k, key) => { state[*k].remove(key); }
         WOp::Clear(k) => state[*k].clear(),
         WOp::Batch(_, items) => for (k, key, v) in items { match v { Some(v) => { state[*k].insert(key.clone(), v.clone()); } None => { state[*k].remove(key); } } },
-        WOp::Persist(_) => {}
+        WOp::Persist(_) | WOp::RotateJournal => {}
     }
 }
 
@@ -98,6 +105,7 @@ fn model_cmd(op: &WOp, seq: u64, ids: &[u64]) -> String {
             format!("wr.op batch {} {s}", dur.as_ref().map(mode_s).unwrap_or("none"))
         }
         WOp::Persist(m) => format!("wr.op persist {}", mode_s(m)),
+        WOp::RotateJournal => "wr.op rotate".into(),
     }
 }
 
@@ -133,19 +141,20 @@ fn run_model(lean: &mut Lean, w: &Workload, ids: &[u64], seqs: &[u64], fault: &s
     let r = lean.ask("wr.op persist syncall"); // Journal::drop
     let tr = r.split("trace=[").nth(1).and_then(|s| s.split(']').next()).unwrap_or("").to_string();
     out.push(("drop".into(), tr));
-    (out, lean.ask("wr.file"))
+    (out, lean.ask("wr.files"))
 }
 
 fn run_case(seed: u64, mode: &str, thorough: bool, lean: &mut Lean, hist: &mut BTreeMap<String, u64>, samples: &mut Vec<J>) -> (Vec<Failure>, bool, u64) {
     let mut fails = vec![];
-    let w = wl::gen(seed);
+    let rot = mode == "c09";
+    let w = wl::gen_with(seed, rot);
     let scratch = Scratch::new("flt");
     let dir = scratch.join("db");
     let mut r = Rng::new(seed ^ 0xabcdef);
     macro_rules! fail { ($k:expr, $($a:tt)*) => {{ fails.push(Failure { kind: $k, detail: format!("{} [workload seed {seed}: manual={} lz4={} ops={:?}]", format!($($a)*), w.manual, w.lz4, w.ops.iter().map(|o| short(o)).collect::<Vec<_>>()) }); return (fails, false, 0); }} }
 
     // 1. clean logged run
-    let base = run_child(&dir, seed, &[]);
+    let base = run_child(&dir, seed, rot, &[]);
     if base.results.len() != w.ops.len() || !base.dropped { fail!("harness", "clean run did not complete ({} of {} ops, status {:?})", base.results.len(), w.ops.len(), base.status); }
     if base.results.iter().any(|(r, _)| r != "ok") { fail!("impl-vs-oracle", "an operation failed without any injected fault: {:?}", base.results); }
     let seqs: Vec<u64> = base.results.iter().map(|x| x.1).collect();
@@ -153,11 +162,14 @@ fn run_case(seed: u64, mode: &str, thorough: bool, lean: &mut Lean, hist: &mut B
     let (model, model_file) = run_model(lean, &w, &base.ids, &seqs, "");
     let model_trace: Vec<String> = model.iter().map(|x| x.1.clone()).filter(|s| !s.is_empty()).collect();
     let real_trace = log_str(&base.log);
-    if model_trace.join(",") != real_trace {
+    if !no_model() && model_trace.join(",") != real_trace {
         fail!("model-vs-impl", "syscall trace differs:\n model={}\n real ={}", model_trace.join(","), real_trace);
     }
-    let content = journal_content(&dir.join("0.jnl"));
-    if hex(&content) != model_file { fail!("model-vs-impl", "journal bytes differ from the writer model ({} vs {} hex chars)", hex(&content).len(), model_file.len()); }
+    let mut jfiles: Vec<u64> = std::fs::read_dir(&dir).map(|d| d.filter_map(|e| e.ok()).filter_map(|e| e.file_name().to_str().and_then(|n| n.strip_suffix(".jnl").and_then(|x| x.parse().ok()))).collect()).unwrap_or_default();
+    jfiles.sort();
+    let content = jfiles.iter().map(|j| { let c = journal_content(&dir.join(format!("{j}.jnl"))); if c.is_empty() { "-".to_string() } else { hex(&c) } }).collect::<Vec<_>>().join("|");
+    if !no_model() && content != model_file { fail!("model-vs-impl", "journal files differ from the writer model ({} vs {} chars over {} files)", content.len(), model_file.len(), jfiles.len()); }
+    if w.ops.iter().any(|o| matches!(o, WOp::RotateJournal)) { *hist.entry("workloads-with-journal-rotation".into()).or_insert(0) += 1; }
     let nsys = base.log.len();
     *hist.entry(format!("syscalls/8={}", nsys / 8 * 8)).or_insert(0) += 1;
     *hist.entry(format!("manual={}", w.manual)).or_insert(0) += 1;
@@ -171,7 +183,7 @@ fn run_case(seed: u64, mode: &str, thorough: bool, lean: &mut Lean, hist: &mut B
             let (errno, short) = match r.below(3) { 0 => (5, None), 1 => (28, None), _ => (5, Some(1 + r.below(40))) };
             let mut env = vec![("VERIF_SHIM_FAIL", match short { Some(k) => format!("{n}:{errno}:short={k}"), None => format!("{n}:{errno}") })];
             env.push(("RUST_BACKTRACE", "0".into()));
-            let run = run_child(&dir, seed, &env);
+            let run = run_child(&dir, seed, rot, &env);
             *hist.entry(format!("fault:{}", match (errno, short) { (_, Some(_)) => "short-write", (5, _) => "EIO", _ => "ENOSPC" })).or_insert(0) += 1;
             if run.results.len() != w.ops.len() { fail!("impl-vs-oracle", "with syscall {n} failing the workload did not run to completion (panic?): {} of {} ops, status {:?}", run.results.len(), w.ops.len(), run.status); }
             let res: Vec<&str> = run.results.iter().map(|x| x.0.as_str()).collect();
@@ -181,7 +193,7 @@ fn run_case(seed: u64, mode: &str, thorough: bool, lean: &mut Lean, hist: &mut B
             let fault = match short { Some(k) => format!("fail={n} short={k}"), None => format!("fail={n}") };
             let (m, _) = run_model(lean, &w, &run.ids, &seqs2, &fault);
             let mres: Vec<&str> = m.iter().take(w.ops.len()).map(|x| x.0.as_str()).collect();
-            if mres != res { fail!("model-vs-impl", "syscall {n} failing ({fault}): model results {:?} vs real {:?}", mres, res); }
+            if !no_model() && mres != res { fail!("model-vs-impl", "syscall {n} failing ({fault}): model results {:?} vs real {:?}", mres, res); }
             // oracle 1: fail-stop
             if let Some(f) = first_err {
                 nontrivial = nontrivial || (f > 0 && f + 1 < res.len());
@@ -201,7 +213,7 @@ fn run_case(seed: u64, mode: &str, thorough: bool, lean: &mut Lean, hist: &mut B
                 let pushes = match op {
                     WOp::Insert(..) | WOp::Remove(..) | WOp::Clear(..) => !w.manual,
                     WOp::Batch(d, it) => d.is_some() && !it.is_empty(),
-                    WOp::Persist(_) => true,
+                    WOp::Persist(_) | WOp::RotateJournal => true,
                 };
                 if pushes { must = i + 1; }
             }
@@ -234,27 +246,41 @@ fn run_case(seed: u64, mode: &str, thorough: bool, lean: &mut Lean, hist: &mut B
         let mut ns: Vec<usize> = (1..=nsys).collect();
         while ns.len() > tries { let i = r.below(ns.len() as u64) as usize; ns.remove(i); }
         for n in ns {
-            let run = run_child(&dir, seed, &[("VERIF_SHIM_KILL", n.to_string())]);
+            let run = run_child(&dir, seed, rot, &[("VERIF_SHIM_KILL", n.to_string())]);
             if run.status != Some(137) { fail!("harness", "kill@{n}: child exited with {:?}", run.status); }
-            // bytes known durable: everything written before the last successful sync
-            let mut written = 0u64;
-            let mut synced = 0u64;
-            for (wh, _, res) in &run.log {
-                match wh.as_str() { "write" => written += *res as u64, "fsync" | "fdatasync" => synced = written, _ => {} }
+            // bytes known durable, per journal file: everything written to it before its last successful sync
+            let mut written: BTreeMap<String, u64> = BTreeMap::new();
+            let mut synced: BTreeMap<String, u64> = BTreeMap::new();
+            for ((wh, _, res), file) in run.log.iter().zip(run.files.iter()) {
+                match wh.as_str() {
+                    "write" => *written.entry(file.clone()).or_insert(0) += *res as u64,
+                    "fsync" | "fdatasync" => { let wv = written.get(file).copied().unwrap_or(0); synced.insert(file.clone(), wv); }
+                    _ => {}
+                }
             }
-            // power loss: unsynced journal bytes are gone (the file keeps its preallocated length)
-            let jp = dir.join("0.jnl");
-            let data = std::fs::read(&jp).unwrap_or_default();
-            let keep = &data[..(synced as usize).min(data.len())];
-            std::fs::write(&jp, keep).unwrap();
-            let f = std::fs::OpenOptions::new().write(true).open(&jp).unwrap();
-            f.set_len(64 * 1024 * 1024).unwrap();
-            drop(f);
+            // power loss: unsynced journal bytes are gone (the active file keeps its preallocated length)
+            let mut present: Vec<u64> = std::fs::read_dir(&dir).map(|d| d.filter_map(|e| e.ok()).filter_map(|e| e.file_name().to_str().and_then(|n| n.strip_suffix(".jnl").and_then(|x| x.parse().ok()))).collect()).unwrap_or_default();
+            present.sort();
+            let mut synced_total = 0u64;
+            for j in &present {
+                let name = format!("{j}.jnl");
+                let jp = dir.join(&name);
+                let data = std::fs::read(&jp).unwrap_or_default();
+                let sy = synced.get(&name).copied().unwrap_or(0);
+                synced_total += sy;
+                let keep = &data[..(sy as usize).min(data.len())];
+                std::fs::write(&jp, keep).unwrap();
+                if Some(j) == present.last() {
+                    let f = std::fs::OpenOptions::new().write(true).open(&jp).unwrap();
+                    f.set_len(64 * 1024 * 1024).unwrap();
+                }
+            }
+            let synced = synced_total;
             let acked = run.results.len();
             // last acknowledged operation that synced
             let mut must = 0;
             for (i, op) in w.ops[..acked].iter().enumerate() {
-                let syncs = match op { WOp::Persist(m) | WOp::Batch(Some(m), _) => *m != Mode::Buffer, _ => false };
+                let syncs = match op { WOp::Persist(m) | WOp::Batch(Some(m), _) => *m != Mode::Buffer, WOp::RotateJournal => true, _ => false };
                 let nonempty = !matches!(op, WOp::Batch(_, it) if it.is_empty());
                 if syncs && nonempty { must = i + 1; }
             }
@@ -291,6 +317,7 @@ fn short(o: &WOp) -> String {
         WOp::Clear(k) => format!("clear ks{k}"),
         WOp::Batch(d, it) => format!("batch {:?} {:?}", d, it.iter().map(|(k, key, v)| (k, hex(key), v.as_ref().map(|x| x.len()))).collect::<Vec<_>>()),
         WOp::Persist(m) => format!("persist {m:?}"),
+        WOp::RotateJournal => "rotate-journal".into(),
     }
 }
 
